@@ -66,6 +66,11 @@ inductive OOp where
                                                    -- timeout / cancellation) `taken` after the send;
                                                    -- `count` = request_count (1, or the batch size)
   | cancelWaiter (i : Nat)                         -- a caller still queued on the limiter is cancelled
+  | sendFailed (i : Nat)                           -- `_send_message` of holder i raised (the blocked
+                                                   -- write hit `max_send_delay`, or the caller was
+                                                   -- cancelled while the write was blocked): the
+                                                   -- `try/finally` was never entered, so the limiter
+                                                   -- is left WITHOUT a response time being recorded
   deriving Repr
 
 /-- `_req_times` after `append(time_taken)` / `extend([time_taken / n] * n)` -/
@@ -93,8 +98,17 @@ def ostep (c : OCfg) (o : Out) : OOp → Out × List C13.Ev
         ({ o1 with lim := r.1 }, r.2)
       else (o, [C13.Ev.bad])
   | .cancelWaiter i => let r := C13.step o.lim (.cancelWaiter i); ({ o with lim := r.1 }, r.2)
+  | .sendFailed i =>
+      if i ∈ o.lim.holders then
+        let r := C13.step o.lim (.exit i)
+        ({ o with lim := r.1 }, r.2)
+      else (o, [C13.Ev.bad])
 
 def oinit (n : Nat) : Out := ⟨C13.init n, []⟩
+
+/-- requests (not send operations) awaiting a response: a batch of `k` requests holds one permit
+but is `k` requests; `cnt i` = request_count of send operation `i` -/
+def awaiting (o : Out) (cnt : Nat → Nat) : Nat := (o.lim.holders.map cnt).sum
 
 def orun (c : OCfg) (o : Out) : List OOp → Out × List C13.Ev
   | [] => (o, [])
